@@ -341,8 +341,9 @@ func Replay(c Case) (res Result) {
 		if err == nil {
 			res.Actual = append(res.Actual, Event{K: "send", Env: k, Res: "ok", Segs: [][3]int{}})
 		} else {
+			// the application goes on with its next envelope (the transport keeps failing: its encoder
+			// holds on to the first error)
 			res.Actual = append(res.Actual, Event{K: "send", Env: k, Res: "err", Segs: [][3]int{}})
-			break
 		}
 	}
 	segs := wc.segs
